@@ -226,3 +226,102 @@ def to_case(ob):
     return {"kind": "frame_walk", "D": D, "real": bool(model_int(ob.model, "self._real", False)),
             "power": bool(model_int(ob.model, "self._power", False)), "log": bool(model_int(ob.model, "self._log", False)),
             "energy": bool(model_int(ob.model, "self._include_energy", False))}
+
+
+# ------------------------------------------------------------------------------------------
+# __init__, the statements that fix what _compute_frame / compute_chunk assume about the object (a statement slice; bank and
+# window construction, flag copies and the default frame length are dropped here):
+#   len(_buf) == len(_window) == _frame_length <= _dft_size; one (start bin, truncated filter) pair per filter, asked for width _dft_size
+# ------------------------------------------------------------------------------------------
+import ast  # noqa: E402
+
+
+def sel_geometry(fn):
+    out = []
+    for s in fn.body:
+        txt = ast.unparse(s)
+        if isinstance(s, ast.Assign) and any(txt.startswith(p) for p in ("self._buf =", "self._window =", "self._truncated_filts =", "self._filt_start_idxs =")):
+            out.append(s)
+        elif isinstance(s, ast.If) and "pad_to_nearest_power_of_two" in ast.unparse(s.test):
+            out.append(s)
+        elif isinstance(s, ast.For) and "get_truncated_response" in txt:
+            out.append(s)
+    return out
+
+
+def setup_geometry(ex, st):
+    L, nf = api.sym("L"), api.sym("num_filts")
+    st.assume(z3.And(L >= 1, nf >= 0))
+    ex.ctx = dict(L=L, nf=nf)
+    api.mk_obj(st, "self", "STFT", {"_frame_length": L})
+    api.mk_obj(st, "bank", "Bank", {"num_filts": nf})
+    api.mk_obj(st, "window_function", "Window", {})
+    st.env["pad_to_nearest_power_of_two"] = api.sym("pad", "bool")
+    st.ghost.update(asked=0, widths_ok=True)
+    for ax in api.math_axioms():
+        ex.axioms.append(ax)
+
+
+def _h_window_ir(ex, st, o, args, kwargs, node, ev):
+    # WindowFunction.get_impulse_response(width) returns exactly `width` samples (C20)
+    (w,) = args
+    ex.assumption_ids.add("C20-contract: a window function returns exactly `width` samples")
+    return st.new_root(w, None, "float64", "self._window", "window")
+
+
+def _h_truncated(ex, st, o, args, kwargs, node, ev):
+    fi, width = args
+    lbl = f"L{node.lineno - ex.fx.lineno}"
+    ex.oblige(st, Z(fi) == Z(st.ghost["asked"]), f"filters_in_order.{lbl}", "spec", node.lineno)
+    ex.oblige(st, z3.And(Z(fi) >= 0, Z(fi) < ex.ctx["nf"]), f"filter_index_in_range.{lbl}", "pre", node.lineno)
+    st.ghost["widths_ok"] = simp(z3.And(Zb(st.ghost["widths_ok"]), Z(width) == Z(st.fields[("self", "_dft_size")])))
+    st.ghost["asked"] = simp(Z(st.ghost["asked"]) + 1)
+    return (Opaque(("start", simp(Z(fi))), "int"), Opaque(("taps", simp(Z(fi))), "arr"))
+
+
+def contract_geometry():
+    c = Contract(
+        target="compute:ShortTimeFourierTransformFrameComputer.__init__",
+        uses=["A-PYSEM", "A-MATH"],
+        consts={"np.float64": Opaque("float64", "dtype"), "ISLIST": SpecFn(lambda ev, a: isinstance(a, (list, api.symex.SeqVal)))},
+        handlers={"Window.get_impulse_response": _h_window_ir, "Bank.get_truncated_response": _h_truncated},
+        loops={0: LoopSpec(kind="for", var="filt_idx", modifies_ghost=["asked", "widths_ok"], invariant=[
+            ("range", "0 <= filt_idx <= bank.num_filts"), ("asked", "asked == filt_idx"), ("widths", "widths_ok"),
+            ("lists", "ISLIST(self._truncated_filts) and ISLIST(self._filt_start_idxs)")])},
+        ensures=[
+            ("dft_covers_frame", "self._dft_size >= self._frame_length"),
+            ("history_buffer_has_frame_length", "len(self._buf) == self._frame_length"),
+            ("window_has_frame_length", "len(self._window) == self._frame_length"),
+            ("every_filter_truncated_for_the_dft_size", "asked == bank.num_filts and widths_ok"),
+        ],
+    )
+    c.canaries = [("dft_strictly_longer", "self._dft_size > self._frame_length")]
+    return c
+
+
+def generate_geometry(prop):
+    from contracts.registry import run_contract
+    from pyvc import extract
+    from pyvc.check import UnitResult
+    try:
+        fx = extract.get_slice("compute", "ShortTimeFourierTransformFrameComputer.__init__", sel_geometry,
+                               "geometry: _buf, _window, _dft_size (incl. power-of-two padding), truncated filters")
+    except KeyError as e:
+        u = UnitResult("stft_geometry")
+        u.outside.append(("compute:ShortTimeFourierTransformFrameComputer.__init__", str(e)))
+        return u
+    return run_contract(prop, fx, contract_geometry(), [("", setup_geometry)], name="stft_geometry", fname="STFT.__init__#geometry")
+
+
+def to_case_geometry(ob):
+    """whole-computer cases of the C02 stand-in (the constructor's choices only show through compute_full): the model's frame
+    length, then lengths that are not powers of two with and without padding, odd and even, several windows"""
+    from pyvc.solve import model_int
+    L0 = model_int(ob.model, "L")
+    out = []
+    for L in ([L0] if L0 and 2 <= L0 <= 400 else []) + [5, 12, 25, 100, 33, 64]:
+        for pad in (True, False):
+            for style, kaldi in (("centered", False), ("causal", False), ("centered", True)):
+                for w in ("default", "hamming"):
+                    out.append({"frame_length": L, "pad": pad, "frame_style": style, "kaldi_shift": kaldi, "window": w, "seed": 0})
+    return out
